@@ -33,8 +33,15 @@ KERNELS = {
     "multitask": {"k": "multitask", "tasks": 2, "rank": 1},
     "rbfgrad": {"k": "rbfgrad"},
     "lcm": {"k": "lcm"},
+    "rbfgrad_ard": {"k": "gradk", "cls": "RBFKernelGrad", "ard": True},
+    "m52grad_ard": {"k": "gradk", "cls": "Matern52KernelGrad", "ard": True},
+    "rbfgradgrad_ard": {"k": "gradk", "cls": "RBFKernelGradGrad", "ard": True},
+    "polygrad": {"k": "gradk", "cls": "PolynomialKernelGrad", "ard": False},
+    "matern_active_desc_ard": {"k": "matern", "nu": 2.5, "active_dims": [2, 1, 0], "ard": True},
+    "sum_active_unsorted": {"k": "sum", "parts": [{"k": "rq", "active_dims": [1, 0], "ard": True}, {"k": "scale", "base": {"k": "rbf", "active_dims": [2, 0], "ard": True}}]},
 }
-PATTERNS = [([], []), ([2], [2]), ([], [2]), ([2], []), ([3, 2], [2]), ([3, 2], [3, 2])]
+GRADLIKE = ("rbfgrad", "rbfgrad_ard", "m52grad_ard", "rbfgradgrad_ard", "polygrad")
+PATTERNS = [([], []), ([2], [2]), ([], [2]), ([2], []), ([3, 2], [2]), ([3, 2], [3, 2]), ([2], [3, 2]), ([3, 1], [3, 2]), ([1], [2])]
 # asymmetric input batches: (parameter batch, x1 batch, x2 batch)
 ASYM = [([], [2], []), ([], [], [2]), ([], [2], [1]), ([2], [2], []), ([], [3, 2], [2]), ([2], [1], [2])]
 D_IN = 3
@@ -53,13 +60,18 @@ def _build(name, pb):
         return K.MultitaskKernel(K.RBFKernel(batch_shape=bs), num_tasks=spec["tasks"], rank=spec["rank"], batch_shape=bs)
     if spec["k"] == "rbfgrad":
         return K.RBFKernelGrad(batch_shape=bs)
+    if spec["k"] == "gradk":
+        kw = {"power": 2} if spec["cls"] == "PolynomialKernelGrad" else {}
+        if spec["ard"]:
+            kw["ard_num_dims"] = D_IN
+        return getattr(K, spec["cls"])(batch_shape=bs, **kw)
     if spec["k"] == "lcm":
         return K.LCMKernel([K.RBFKernel(), K.MaternKernel(nu=1.5)], num_tasks=2, rank=1)
     return util.build_kernel(spec, D_IN, pb)
 
 
 def _nout(name):
-    return {"multitask": 2, "lcm": 2, "rbfgrad": D_IN + 1}.get(name, 1)
+    return {"multitask": 2, "lcm": 2, "rbfgrad": D_IN + 1, "rbfgrad_ard": D_IN + 1, "m52grad_ard": D_IN + 1, "polygrad": D_IN + 1, "rbfgradgrad_ard": 2 * D_IN + 1}.get(name, 1)
 
 
 def cases(tier, seed):
@@ -71,11 +83,16 @@ def cases(tier, seed):
         for pb, xb, xb2 in [(p_, x_, None) for p_, x_ in PATTERNS] + ASYM:
             if name == "lcm" and pb:
                 continue
-            if xb2 is not None and (name in ("rbfgrad", "lcm", "multitask") or (tier == "quick" and name not in ("rbf", "scale_active", "sum"))):
+            if xb2 is not None and (name in GRADLIKE + ("lcm", "multitask") or (tier == "quick" and name not in ("rbf", "scale_active", "sum"))):
                 continue
-            if name == "rbfgrad" and pb != xb:
+            if name in GRADLIKE and pb != xb:
                 continue  # derivative kernels do not broadcast parameters against differently batched data (crash cells, C08)
             n1, n2 = (3, 2) if _nout(name) > 1 else (5, 4)
+            if (pb, xb, xb2) == ([], [], None) and name not in GRADLIKE + ("lcm",):
+                # a kernel batch size equal to the number of points, inputs without that batch dimension: diagonals and
+                # full matrices have look-alike shapes
+                yield {"kind": "relations", "kernel": name, "pbatch": [n1], "xbatch": [], "n1": n1, "n2": n2, "seed": rnd.randrange(10**6)}
+                yield {"kind": "relations", "kernel": name, "pbatch": [n1], "xbatch": [2, 1], "n1": n1, "n2": n2, "seed": rnd.randrange(10**6)}
             if xb2 is None:
                 yield {"kind": "relations", "kernel": name, "pbatch": pb, "xbatch": xb, "n1": n1, "n2": n2, "seed": rnd.randrange(10**6)}
             # index expressions over the operator's shape
@@ -228,7 +245,7 @@ def _relations(case, ctx, kern, x1, x2, D, g):
         ctx.close("diag_equals_diagonal", kern(x1).diagonal(dim1=-1, dim2=-2), torch.diagonal(Dxx, dim1=-2, dim2=-1), (1e-7, 1e-7), cls=cls + ":lazy.diagonal")
     except NotImplementedError:
         ctx.reject("diag not implemented")
-    if name != "rbfgrad":
+    if name not in GRADLIKE:
         x3 = x2[..., :1, :].expand(*x2.shape[:-2], n1, D_IN) + util.randn(g, *x2.shape[:-2], n1, D_IN)
         with S.lazily_evaluate_kernels(False):
             D13 = kern(x1, x3).to_dense()
@@ -237,6 +254,13 @@ def _relations(case, ctx, kern, x1, x2, D, g):
         if dg.shape != refd.shape:
             dg, refd = torch.broadcast_tensors(dg, refd)
         ctx.close("diag_equals_diagonal", dg, refd, (1e-7, 1e-7), cls=cls + ":x1!=x2")
+    # active_dims restricts a kernel to exactly those input columns: the same kernel class without active_dims, carrying the
+    # same parameters, on the columns picked by hand
+    spec = KERNELS[name]
+    if _uses_active(spec):
+        with S.lazily_evaluate_kernels(False):
+            ref = _no_active_ref(spec, kern, x1, x2)
+        ctx.close("active_dims_select_columns", D, ref.expand(D.shape), "direct", cls=cls)
     # blocks of K on stacked inputs
     xx = torch.cat([x1, x2], -2)
     J = kern(xx)
@@ -287,6 +311,37 @@ def _relations(case, ctx, kern, x1, x2, D, g):
         except Exception as e:
             ctx.fail("expand_batch", f"expand_batch({newb}) raised {type(e).__name__}: {str(e)[:140]}", "raise", exc=type(e).__name__, kernel=name)
     ctx.cell({k: v for k, v in case.items() if k != "seed"})
+
+
+def _uses_active(spec):
+    return "active_dims" in spec or any(_uses_active(p) for p in spec.get("parts", [])) or ("base" in spec and isinstance(spec["base"], dict) and _uses_active(spec["base"]))
+
+
+def _no_active_ref(spec, kern, x1, x2):
+    """evaluate the spec tree with every leaf replaced by an active_dims-free twin (same parameters) on hand-picked columns"""
+    import torch
+
+    from vf import util
+
+    k = spec["k"]
+    if k == "scale":
+        o = kern.outputscale
+        ad = spec["base"].get("active_dims")
+        # ScaleKernel adopts its base kernel's active_dims: the columns are picked once
+        return o.reshape(*o.shape, 1, 1) * _no_active_ref(spec["base"], kern.base_kernel, x1, x2)
+    if k in ("sum", "prod"):
+        outs = [_no_active_ref(p_, kk, x1, x2) for p_, kk in zip(spec["parts"], kern.kernels)]
+        out = outs[0]
+        for o_ in outs[1:]:
+            out = out + o_ if k == "sum" else out * o_
+        return out
+    ad = spec.get("active_dims")
+    if ad is None:
+        return kern(x1, x2).to_dense()
+    twin = util.build_kernel({kk: v for kk, v in spec.items() if kk != "active_dims"}, len(ad), tuple(kern.batch_shape))
+    sd = {n_: v for n_, v in kern.state_dict().items() if n_ != "active_dims"}
+    twin.load_state_dict(sd, strict=False)
+    return twin(x1[..., ad], x2[..., ad]).to_dense()
 
 
 def _repeat_batched_kernel(case, fl):
